@@ -71,6 +71,9 @@ Theorem C02_offsets_never_move_backwards : forall s a b, OffsetsP.wf_obs b -> Of
   /\ OffsetsP.off_le (Offsets.olook s b) (Offsets.olook s (Offsets.advance a b)).
 Proof. exact OffsetsP.advance_ge. Qed.
 
+Example C02_offsets_nonvacuous : OffsetsP.offsets_example_statement.
+Proof. exact OffsetsP.offsets_example. Qed.
+
 Print Assumptions C02_crash_recovery_exactly_once.
 Print Assumptions C02_every_acked_insert_once.
 Print Assumptions C02_no_loss_no_double_at_any_time.
